@@ -620,6 +620,30 @@ func c15Cow(p *Prog, r *Report, prefix string) {
 		r.check(len(ab) == 0, rule, "add-if-absent", p.Pos(onEvent.Pos()), "", strings.Join(ab, " || "))
 	}
 
+	// one event, one publication: a plan created (lock-free) while an event is being applied sees the
+	// list before or after it, never an intermediate list
+	{
+		s := newSim(p)
+		s.Inline = func(f *ssa.Function) bool { return recvNamed(f) == lb && f.Parent() == nil && f != onEvent }
+		s.Effect = func(call ssa.CallInstruction, callee *ssa.Function) []string {
+			if callIsMethod(call, "sync/atomic", "Value", "Store") {
+				if fa, ok := call.Common().Args[0].(*ssa.FieldAddr); ok && fieldOfAddr(fa) == lbHosts {
+					return []string{"publish"}
+				}
+			}
+			return nil
+		}
+		var sb []string
+		outs := s.Run(onEvent, newState())
+		r.count("sim_states", s.Nodes)
+		for _, o := range outs {
+			if !o.Panic && o.St.eff["publish"] >= 2 {
+				sb = append(sb, fmt.Sprintf("one event publishes the host list more than once (path ending at %s): a query plan created between the publications snapshots a list that is neither the old nor the new one (hosts that are live before and after the event are missing from it)", p.Pos(o.Pos)))
+			}
+		}
+		r.check(len(sb) == 0 && len(outs) > 0, rule, "one-publication-per-event", p.Pos(onEvent.Pos()), fmt.Sprintf("%d paths", len(outs)), strings.Join(dedupe(sb), " || "))
+	}
+
 	// atomics discipline
 	var ab []string
 	nacc := 0
